@@ -104,8 +104,6 @@ Definition expected : contracts := [
      Check "reference_point" [DInt 3] None;
      Check "normal" [DInt 3] None]);
   ("polliwog.plane._plane_object.Plane.__repr__", []);
-  ("polliwog.plane._plane_object.Plane._line_segment_xsection", []);
-  ("polliwog.plane._plane_object.Plane._line_xsection", []);
   ("polliwog.plane._plane_object.Plane.canonical_point", []);
   ("polliwog.plane._plane_object.Plane.deserialize", []);
   ("polliwog.plane._plane_object.Plane.distance", []);
@@ -221,7 +219,6 @@ Definition expected : contracts := [
      Check "indices" [DVar "k"] None]);
   ("polliwog.polyline._polyline_object.Polyline.with_segments_bisected", [
      Check "segment_indices" [DAny] None]);
-  ("polliwog.polyline._slice_by_plane._crossing_point", []);
   ("polliwog.polyline._slice_by_plane.slice_open_polyline_by_plane", [
      Check "vertices" [DAny; DInt 3] (Some "num_v")]);
   ("polliwog.polyline._try_inflection_points.load_front_torso_mesh", []);
@@ -241,7 +238,6 @@ Definition expected : contracts := [
      Check "p2" [DVar "n"] None]);
   ("polliwog.segment._segment_functions.subdivide_segments", [
      Check "v" [DAny; DAny] None]);
-  ("polliwog.shapes._shapes._maybe_flatten", []);
   ("polliwog.shapes._shapes.cube", [
      Check "origin" [DInt 3] None]);
   ("polliwog.shapes._shapes.rectangular_prism", [
@@ -251,8 +247,6 @@ Definition expected : contracts := [
      Check "p1" [DInt 3] None;
      Check "p2" [DInt 3] None;
      Check "p3" [DInt 3] None]);
-  ("polliwog.transform._affine_transform._convert_33_to_44", [
-     Check "matrix" [DInt 3; DInt 3] None]);
   ("polliwog.transform._affine_transform.transform_matrix_for_non_uniform_scale", []);
   ("polliwog.transform._affine_transform.transform_matrix_for_rotation", [
      NeedsShape "rotation";
